@@ -141,7 +141,7 @@ def in_scope(b, scope_files):
     return any(s in f for s in scope_files)
 
 
-def rule_PERR(u, rep, scope_files, crate="epserde", exclude_fn=None):
+def rule_PERR(u, rep, scope_files, crate="epserde", exclude_fn=None, only_callees=None):
     n = 0
     for b in u.bodies.values():
         if b.thir is None or b.d.get("krate") != crate:
@@ -154,6 +154,8 @@ def rule_PERR(u, rep, scope_files, crate="epserde", exclude_fn=None):
         walk(b.crate, b.thir["root"], None, sites, None)
         for (e, parent, _c) in sites:
             callee = b.crate.defj(e["f"]["d"])
+            if only_callees and callee.get("name") not in only_callees:
+                continue
             verdict, why = classify(parent) if parent else ("ok", "root")
             n += 1
             rep.oblige(verdict != "bad")
